@@ -53,6 +53,9 @@ func c19NewCtx(tb testing.TB) *c19Ctx {
 		tb.Fatalf("harness problem: cannot read the shipped app_config.toml: %v", err)
 	}
 	x.shipped = s
+	if err := c19EnsureGeoFiles(); err != nil {
+		tb.Fatalf("harness problem: %v", err)
+	}
 	os.Setenv("CJ_STATION_CONFIG", x.confPath)
 	os.Setenv("PHANTOM_SUBNET_LOCATION", x.subnetPath)
 	if err := os.WriteFile(x.subnetPath, []byte(vDefaultSubnets), 0o644); err != nil {
@@ -584,6 +587,7 @@ func c19RunConfig(x *c19Ctx, c c19ConfigCase, res *c19Result) {
 	if k, m := c19Enforced(x, conf, st.rm.RegConfig, res); k != "" {
 		res.report(k, "after a reload of the same file: "+m)
 	}
+	st.useGeoIP("after a reload of the same file", 50, res)
 	st.housekeeping("after reload", res.report)
 }
 
